@@ -40,6 +40,11 @@ theorem exit_life_params_repaired : Extracted.lifeParams = LParams.repaired := b
     forget the worker id, fresh once-flag — and only then clear the id the signal handler reads -/
 theorem exit_stop_sequence : Extracted.stopSeq = stopSeqCurrent ∧ Extracted.atexitSeq = stopSeqCurrent := by decide
 
+/-- the handler asks for its flush with `logger->flush_log(0)`, whose wait has no way out: the interleaving theorems are
+    about this code (`C07_stop_model_waits_for_ever`); with the candidate repair of F27 this flips and
+    `C07_F27_repair_never_hangs` is the statement that applies -/
+theorem exit_flush_waits_for_ever : Extracted.flushEndsWhenBackendGone = false := by decide
+
 theorem exit_wait_for_queues_default : Extracted.waitForQueuesDefault = true := by decide
 
 /-- `run`: init, set the running flag, poll while it is set, then `_exit()` and nothing else; the starter waits for
